@@ -28,10 +28,30 @@ class FactoryRoles:
         self.isdisabled = next((f for n, f in self.m.items() if n.lstrip("_") == "isdisabled"), None)
         self.create = next((f for n, f in self.m.items() if n.lstrip("_") == "create_filter"), None)
         self.build_condition = next((f for n, f in self.m.items() if n.lstrip("_") == "build_condition"), None)
-        self.quote = next((f for n, f in self.m.items() if "quote" in n), None)
+        self.quote = next((f for n, f in self.m.items() if "quote" in n), None) or next(
+            (f for n, f in self.mod.funcs.items() if "quote" in n), None)
+        # methods of the class plus the private functions of its module (helpers that do not use self may live at either place)
+        self.helpers = dict(self.mod.funcs)
+        self.helpers.update(self.m)
         self.gen_require = next((f for n, f in self.m.items() if "gen_require" in n), None)
         if self.isdisabled is None or self.create is None:
             raise AnalysisError(rule, "FiltersSet.__isdisabled / __create_filter not found")
+
+    def builders(self):
+        """__create_filter and every private method of the class it reaches (self.m(...) calls and self.m references, e.g. the
+        values of a dispatch table)."""
+        out, todo = [], [self.create]
+        while todo:
+            f = todo.pop()
+            if f is None or f in out:
+                continue
+            out.append(f)
+            sn = f.params[0] if f.params else "self"
+            for n in walk_no_nested(f.node):
+                if isinstance(n, ast.Attribute) and isinstance(n.value, ast.Name) and n.value.id == sn and n.attr in self.m \
+                        and n.attr.startswith("_") and not n.attr.endswith("__"):
+                    todo.append(self.m[n.attr])
+        return out
 
 
 def filters_mutations(f):
@@ -40,8 +60,12 @@ def filters_mutations(f):
     selfn = f.params[0]
     entry_vars = set()
     for n in walk_no_nested(f.node):
-        if isinstance(n, ast.For) and "filters" in norm(n.iter) and isinstance(n.target, ast.Name):
-            entry_vars.add(n.target.id)
+        if isinstance(n, ast.For) and "filters" in norm(n.iter):
+            if isinstance(n.target, ast.Name):
+                entry_vars.add(n.target.id)
+            elif isinstance(n.target, ast.Tuple) and len(n.target.elts) == 2 and isinstance(n.target.elts[1], ast.Name) \
+                    and isinstance(n.iter, ast.Call) and call_name(n.iter) == "enumerate":
+                entry_vars.add(n.target.elts[1].id)  # for index, entry in enumerate(self.filters)
     changed = True
     while changed:
         changed = False
@@ -186,6 +210,9 @@ def run(ctx):
         raise AnalysisError("O3", "movefilter shape not recognised")
     lp = loops[0]
     ev = lp.target.id if isinstance(lp.target, ast.Name) else None
+    if ev is None and isinstance(lp.target, ast.Tuple) and len(lp.target.elts) == 2 and isinstance(lp.target.elts[1], ast.Name) \
+            and isinstance(lp.iter, ast.Call) and call_name(lp.iter) == "enumerate":
+        ev = lp.target.elts[1].id
     inserts = [c for c in walk_no_nested(f.node) if isinstance(c, ast.Call) and call_name(c) == "insert" and "filters" in norm(c.func.value)]
     removes = [c for c in walk_no_nested(f.node) if isinstance(c, ast.Call) and call_name(c) == "remove" and "filters" in norm(c.func.value)]
     if not inserts and not removes and _o3_swap(ctx, R, f, cfg, lp, dirp):
